@@ -4,6 +4,11 @@ import json, os
 V = os.path.dirname(os.path.dirname(os.path.abspath(__file__)))
 
 CHECKS = {
+    "C20": dict(
+        text="Coq theorems about the record state machine of instrument.go: exactly one Put however often and in whatever order a record is finished, a second finish refused, stored size = sum of what was added before the first finish. The extracted machine is run against NetworkInstrumenter on random operation lists; and mixes of answered / cancelled / timed-out / refused / interrupted calls, compressed calls (with compressed replies), notifications and served calls run on the real transport with a recording storage: every operation whose frame was written must have exactly one record under '<Type> <method>' whose Size equals the bytes of its frame plus, when received before the finish, the payload length of the peer's matching frame (sizes recomputed from the raw frames of the event log).",
+        note="PARTIAL: that every way an RPC can end reaches exactly one RecordAndFinish is checked on the implementation (histories), not proved about a model of dispatch.go/request.go. Trusted: Coq kernel, extraction + OCaml glue, Go harness.",
+        technique="Coq proof (state machine, induction over operation lists) + extracted-model differential correspondence + accounting oracle on implementation traces",
+        design="6/C20"),
     "C01": dict(
         text="Coq theorems, every schedule: every result handed to a caller was sent by the peer for that call's own seqno (no cross-talk), call seqnos are pairwise distinct, a call is in the pending table exactly while outstanding, the caller's frame decodes to exactly its argument and tags under every legal encoding, reply frames are whole. The harness runs N of our calls answered in every one of the N! orders mixed with M incoming calls/notifications whose handlers finish in every order, generated values and tag maps, delayed replies, cancellations and not-found calls, and checks at quiescence: one invocation per delivered request with exactly the supplied argument/tags, exactly one reply per returned handler carrying its own result, never two, no cross-talk.",
         note="KNOWN FINDING (not repaired): a handler result whose reply exceeds the frame limit gets no reply at all. 'Exactly one reply is eventually sent' is checked at quiescence on the implementation; the model proves at-most-once and routing. Trusted: Coq kernel, extraction + OCaml glue, Go harness.",
